@@ -2,7 +2,7 @@ SPECIFICATION Spec
 CONSTANTS
   MaxDepth = 6
   RetryOnce = TRUE
-  RememberENOENT = FALSE
+  RememberENOENT = TRUE
   UnmaskedViaOpenTree = FALSE
 INVARIANTS HandlesBounded MissingIsENOENT ExistingIsFound VisibleToPrivilegedIsFound
 CHECK_DEADLOCK FALSE
